@@ -16,9 +16,17 @@ type C02Case struct {
 	// the container holds "a"+r+"b" as value and as key for the 256 code points
 	// starting at Sweep*256.
 	Sweep int `json:"sweep"`
+	// Muts: mutations of (nested) containers after the first String(); String() is then checked again
+	Muts []CloneMut `json:"muts,omitempty"`
 }
 
-func GenC02(t *rapid.T) *C02Case { return &C02Case{Root: genTreeCase(t), Sweep: -1} }
+func GenC02(t *rapid.T) *C02Case {
+	c := &C02Case{Root: genTreeCase(t), Sweep: -1}
+	if oneIn(t, 5, "remutate") {
+		c.Muts = genNestedMuts(t)
+	}
+	return c
+}
 
 // sweepTree builds the tree for one block of 256 code points.
 func sweepTree(block int) V {
@@ -97,6 +105,25 @@ func CheckC02(c *C02Case, st *Stats) error {
 	}
 	if !EqVBits(snap, root) {
 		return errf("String() changed the container: %s -> %s", root.Show(), snap.Show())
+	}
+	for i, m := range c.Muts {
+		ids := Idents(orig)
+		target := ids[m.Node%len(ids)]
+		var applied bool
+		if p, panicked := catch(func() { applied = applyCloneMut(orig, target, m) }); panicked {
+			return errf("mutation %d (%s) panicked: %v", i, m.Op, p)
+		}
+		if !applied {
+			continue
+		}
+		now, err := Snap(orig)
+		if err != nil {
+			return err
+		}
+		st.Count("restring_after." + m.Op)
+		if err := checkJSONText(stringOf(orig), now, st); err != nil {
+			return errf("after a %s on a nested container: %v", m.Op, err)
+		}
 	}
 	return nil
 }
